@@ -461,7 +461,7 @@ func c19Guards(p *Prog, r *Report, mar, unm *FuncInfo) {
 	rejectDetail := ""
 	acceptOK := true
 	for L := int64(0); L <= 41; L++ {
-		env := &Env{P: p, Pkg: unm.Pkg, Vars: map[types.Object]*Val{}}
+		env := &Env{P: p, Pkg: unm.Pkg, Vars: map[types.Object]*Val{}, Body: unm.Decl.Body}
 		env.Hook = func(env *Env, e ast.Expr) (*Val, bool) {
 			if c, isCall := e.(*ast.CallExpr); isCall && len(c.Args) == 1 {
 				if id, isId := c.Fun.(*ast.Ident); isId && id.Name == "len" && objOf(info, c.Args[0]) == dataObj {
